@@ -22,6 +22,11 @@ Theorem C10_run_no_trailing_blank : forall cfg r, has_sp_nl (fmt_run cfg r) = fa
 Proof. exact fmt_run_no_trailing_blank. Qed.
 Print Assumptions C10_run_no_trailing_blank.
 
+(* the output of the pipeline holds no tab and no carriage return (so "blank" above and below means space) *)
+Theorem C10_run_no_tab_cr : forall cfg r, Forall (fun c => c <> TAB /\ c <> CR) (fmt_run cfg r).
+Proof. exact fmt_run_clean. Qed.
+Print Assumptions C10_run_no_tab_cr.
+
 (* the token that follows the run: when the run's output ends in a line feed followed only by
    blanks, those blanks are exactly indentwidth x depth spaces *)
 Theorem C10_run_indent : forall cfg r p q, f_at_end cfg = false ->
